@@ -275,7 +275,7 @@ fn alphabet(nstream: usize, tier: Tier) -> Vec<Act> {
         a.push(Act::Rate(v));
         a.push(Act::Fperiod(v));
     }
-    for &v in &[0.0, -20.0, 20.0, 0.5] {
+    for &v in &[0.0, -20.0, 20.0, 0.5, 1.0] {
         a.push(Act::Volume(v));
     }
     for &v in f {
